@@ -89,6 +89,8 @@ def run(ctx):
         st = res.get("stats", {})
         guards.require(st.get("proof_sweep-verifications", 0) >= 500 or ctx.violations,
                        "range-proof sweeps executed only %s verifications" % st.get("proof_sweep-verifications"))
+        guards.require(st.get("proof_sweep-claims-of-kept-boundary-leaves-only", 0) >= 3 or ctx.violations,
+                       "range-proof sweeps claimed only %s ranges by their kept boundary leaves alone" % st.get("proof_sweep-claims-of-kept-boundary-leaves-only"))
         ntam = sum(v for k, v in st.items() if k.startswith("proof_rtamper-case-"))
         guards.require(ntam >= 30 or ctx.violations, "only %s tampered range proofs were verified" % ntam)
         ctx.coverage["behaviours_proof"] = len(behaviours)
